@@ -2134,7 +2134,8 @@ void mmd_export_token_latex_raw(DString * out, const char * source, token * t, s
 			break;
 
 		case TEXT_PERCENT:
-			print_const("\\%");
+			// verbatim / lstlisting: nothing is escaped
+			print_const("%");
 			break;
 
 		default:
